@@ -44,7 +44,8 @@ type BSCase struct {
 	Bits     uint8     `json:"bits"`
 	PrimSize uint32    `json:"prim_size"`
 	IdxSize  uint32    `json:"idx_size"`
-	Started  bool      `json:"started"` // run the periodic flusher (2 ms)
+	Started  bool      `json:"started"`        // run the periodic flusher (2 ms)
+	High     bool      `json:"high,omitempty"` // file numbers so high that positions exceed 32 bits (Config.StartPrim)
 	Blocks   []BSBlock `json:"blocks"`
 	Ops      []BSOp    `json:"ops"`
 }
@@ -61,6 +62,7 @@ func genBS(t *rapid.T) BSCase {
 	c.PrimSize = []uint32{64, 256, 1024, 0}[weighted(t, "prim", []int{2, 2, 2, 2})]
 	c.IdxSize = []uint32{64, 256, 1024, 0}[weighted(t, "idx", []int{2, 2, 2, 2})]
 	c.Started = weighted(t, "started", []int{2, 1}) == 1
+	c.High = weighted(t, "high", []int{6, 1}) == 1
 	// Few blocks most of the time, so that calls meet on the same block.
 	nbHi := []int{5, 12, 24}[weighted(t, "nblocksClass", []int{3, 2, 1})]
 	nb := rapid.IntRange(2, nbHi).Draw(t, "nblocks")
@@ -200,6 +202,10 @@ func runBS(c BSCase) (st bsStats, v *Violation) {
 		store.GCInterval(0), store.BurstRate(1 << 40), store.SyncInterval(time.Hour)}
 	if c.Started {
 		opts[len(opts)-1] = store.SyncInterval(2 * time.Millisecond)
+	}
+	if c.High {
+		forgeStartFiles(dir, Config{Primary: store.MultihashPrimary, Bits: c.Bits, IdxSize: c.IdxSize, PrimSize: c.PrimSize,
+			StartPrim: startFileFor(c.PrimSize, 1), StartIdx: startFileFor(c.IdxSize, 1)})
 	}
 	bs, err := storethehash.OpenHashedBlockstore(context.Background(), filepath.Join(dir, idxBase), filepath.Join(dir, dataBase), opts...)
 	if err != nil {
